@@ -495,6 +495,9 @@ def apply_op(rep, op, idx, run_seed, side_hook=None):
     if k == 'deepcopy_model':
         # "keep a copy of the model and go on with the copy" (EMA / best-model bookkeeping)
         import copy
+        # (copies are taken at quiet moments - end of an epoch - with no gradients pending; deepcopy does not carry
+        # .grad over, so pending gradients are dropped first: the step is then the same whether the copy succeeds or not)
+        m.zero_grad(set_to_none=True)
         try:
             rep.model = copy.deepcopy(m)
         except Exception:
